@@ -106,13 +106,14 @@ class Sim:
 
         class RM(zrm.RecordManager):
             # observation points only: what is passed, and what the cache looks like at that moment
-            def async_updates(self, now, records):
+            # (extra arguments a revised implementation may pass between its own methods are handed through)
+            def async_updates(self, now, records, *a, **k):
                 sim.phase1 = ([[vrec(u.new), vopt(u.old)] for u in records], sim.dump())
-                super().async_updates(now, records)
+                super().async_updates(now, records, *a, **k)
 
-            def async_updates_complete(self, notify):
+            def async_updates_complete(self, notify, *a, **k):
                 sim.phase2 = (sim.dump(), bool(notify))
-                super().async_updates_complete(notify)
+                super().async_updates_complete(notify, *a, **k)
 
         self.rm = RM(self.zc)
         self.zc.record_manager = self.rm
